@@ -359,6 +359,11 @@ impl BootSector {
         }
         let bpb = BPBFoundation::from_bytes(&sec_data[11..36].to_vec()).expect(RCH);
         ans &= bpb.verify();
+        if bpb.sec_size() as usize != sec_data.len() {
+            // cluster and FAT arithmetic use the BPB's sector size, the buffers have the image's
+            debug!("BPB sector size {} does not match the image's sector size {}",bpb.sec_size(),sec_data.len());
+            ans = false;
+        }
         let ext32 = BPBExtension32::from_bytes(&sec_data[36..64].to_vec()).expect(RCH);
         let fat_secs = match bpb.fat_size_16 {
             [0,0] => u32::from_le_bytes(ext32.fat_size_32) as u64,
